@@ -121,8 +121,7 @@ class RegistryAdd:
     modifies = ["types", "replaces"]
 
     def requires(self, replace_types, cls):
-        return {"sound_replacements": forall(as_list(replace_types), lambda t: sub_accepts(t, cls)),
-                "replaces_are_pairs": forall(self.replaces, lambda p: p is tuple2(at(p, 0), at(p, 1)))}
+        return {"sound_replacements": forall(as_list(replace_types), lambda t: sub_accepts(t, cls))}
 
     def ensures(self, replace_types, cls):
         given = not is_none(cls) and truthy(cls)
@@ -153,9 +152,6 @@ class RegisterDatetime:
     (no date/time pseudo-type may swallow another: their strings and rendered types differ)."""
     sorts = {"registry": "obj:StringSerializableRegistry", "types": "list", "replaces": "set"}
     modifies = ["types", "replaces"]
-
-    def requires(self, registry):
-        return {"replaces_are_pairs": forall(registry.replaces, lambda p: p is tuple2(at(p, 0), at(p, 1)))}
 
     def ensures(self, registry):
         n = seq_len(old(registry.types))
